@@ -54,8 +54,13 @@ def check(doc, tokens, stats=None):
     lines = _lines(doc)
     nlines = len(lines)
     last_block_line = 0
+    parent = None  # innermost open leaf block (for text tokens)
     for tok in tokens:
         name = tok.token_name
+        if tok.is_leaf and not tok.is_end_token:
+            parent = name
+        elif tok.is_end_token and name in ("end-para", "end-atx", "end-setext", "end-fcode-block", "end-icode-block", "end-html-block"):
+            parent = None
         if tok.is_end_token or name in ("end-of-stream", "pragma"):
             continue
         ln = tok.line_number
@@ -84,6 +89,13 @@ def check(doc, tokens, stats=None):
                 out.append({"token": name, "line": ln, "column": col, "why": f"block token line decreases (after {last_block_line})"})
             last_block_line = ln
         ch = text[col - 1] if col <= len(text) else ""
+        if name in ("html-block", "tbreak"):
+            # project convention: these blocks are positioned at the start of their (up to 3
+            # characters of) indentation; the opener is the first non-space character from there
+            k = col - 1
+            while k < len(text) and text[k] == " ":
+                k += 1
+            ch = text[k] if k < len(text) else ""
         want = None
         if name in _BLOCK_OPENERS:
             want = _BLOCK_OPENERS[name]
@@ -99,6 +111,24 @@ def check(doc, tokens, stats=None):
             continue
         elif name == "emphasis":
             want = "*_~"
+        elif name == "li":
+            if not (_is_digit(ch) or ch == "-" or ch == "+" or ch == "*"):
+                out.append({"token": name, "line": ln, "column": col, "why": "new list item position is not at a list marker", "found": ch})
+            continue
+        elif name == "hard-break":
+            if not (ch == " " or ch == chr(92)):
+                out.append({"token": name, "line": ln, "column": col, "why": "hard break position is not at its spaces/backslash", "found": ch})
+            continue
+        elif name == "text" and parent in ("para", "atx"):
+            # the source character at the position is the first character of the text, unless
+            # the text starts with a replacement marker (escape, character reference)
+            tt = tok.token_text
+            if len(tt) > 0:
+                first = tt[0]
+                if not _is_marker(first) and first != "\n":
+                    if not (ch == first):
+                        out.append({"token": name, "line": ln, "column": col, "why": "text position is not at the first character of the text", "found": ch, "expected": first})
+            continue
         elif name == "para":
             # first character of the paragraph: not a space
             if ch == " " or ch == "":
@@ -113,6 +143,12 @@ def check(doc, tokens, stats=None):
             if not ok:
                 out.append({"token": name, "line": ln, "column": col, "why": f"source character is not one of {want!r}", "found": ch})
     return out
+
+
+def _is_marker(ch):
+    """pymarkdown's in-band replacement / escape markers (and the characters they stand for)"""
+    o = ord(ch)
+    return o < 9 or o == 0xFE or o == 0x8268 or o == 0x8269
 
 
 def _is_digit(ch):
